@@ -530,7 +530,7 @@ func runC16(c *eng.Ctx) {
 			fallback = "it := ix.PostingsForLabelMatching(ctx, m.Name, func(s string) bool { return !m.Matches(s) })"
 		}
 		want := map[string]bool{
-			"[m.Type == " + typeEq + "] return ix.Postings(ctx, m.Name, m.Value)":                                                                  false,
+			"[m.Type == " + typeEq + "] return ix.Postings(ctx, m.Name, m.Value)":                                                             false,
 			"[m.Type == " + typeSet + "] setMatches := m.SetMatches() ; len(setMatches) > 0 ⇒ return ix.Postings(ctx, m.Name, setMatches...)": false,
 			"[] " + fallback:         false,
 			"[] return it, it.Err()": false,
